@@ -8,7 +8,7 @@ RULE = ("random degree-2 polynomial maps Z^in -> Z^out with integer coefficients
         "comparison with the contraction of the formal Jacobian computed in Coq, and of the result shape; plus the "
         "argnum algebra (position, tuple, list, by name; extra positional/keyword arguments) on the implementation; "
         "distinct by (map, x, operator)")
-TRUST = ["the formal derivative of an integer polynomial is taken as the true Jacobian"]
+TRUST = ["the value map evalf of Run16.v is what the implementation's primal is compared with; its Jacobian/Hessian are proved (PolyDeriv.v), not assumed"]
 ASSUMPTIONS = ["engine contract make_vjp = J^T g, make_jvp = J v (conclusion of C01-C03) for the theorems"]
 IMPORTS = ("From Coq Require Import List ZArith.\nImport ListNotations.\n"
            "From AG Require Import Operators Run16 Argnum RunArg.\nLocal Open Scope Z_scope.\n")
@@ -91,10 +91,12 @@ def replay(rp):
     return 1
 
 
-TECHNIQUE = "Coq theorems: each operator, defined through the engine contract, equals the stated contraction of one abstract Jacobian for all sizes over any commutative ring; exact correspondence against formal Jacobians of integer polynomial maps"
+TECHNIQUE = "Coq theorems: each operator, defined through the engine contract, equals the stated contraction of one abstract Jacobian for all sizes over any commutative ring; exact Taylor identity proving the polynomial ground truth; argument-selection algebra proved for every arity; exact correspondence against integer polynomial maps and of util.subvals/unary_to_nary against the model"
 DESIGN_REF = "DESIGN.md 4.16"
 LEVEL_TEXT = ("Proved for all output/input sizes and any Jacobian: jacobian entries and shape, grad, elementwise_grad, "
-              "reverse-mode JVP = forward JVP, tensor-Jacobian product. Exact comparison of every operator (incl. hessian, "
+              "reverse-mode JVP = forward JVP, tensor-Jacobian product; for every quadratic polynomial map the formal Jacobian/Hessian are "
+              "the derivatives of the value map (exact Taylor identity), hessian = Jacobian of the gradient and symmetric, hvp = gradient "
+              "displacement; subvals/unary_to_nary substitute only the selected positions (every arity, every position list). Exact comparison of every operator (incl. hessian, "
               "hvp, ggnvp, value_and_grad, grad_and_aux) with Coq-computed contractions on polynomial maps of ranks 0..3; "
               "argnum algebra on the implementation.")
-LEVEL_NOTE = "Trusted: Coq kernel; engine contract as section hypothesis; formal polynomial derivative as ground truth."
+LEVEL_NOTE = "Trusted: Coq kernel; engine contract as section hypothesis; negative positions and selection by name by oracle only."
